@@ -815,8 +815,7 @@ def robustness_probes(case, st, iv, out):
     if cm is not None:
         if not same_out(run_impl(cm, st, iv, time_unit='ms'), run_impl(cm, st, iv)):
             probs.append('passing the time axis as datetime64[ms] instead of the same numbers changes the result')
-    # latitudes / longitudes as float32: only gross properties (lengths, finiteness, never less, total within 0.1 %
-    # of the binary64 run)
+    # latitudes / longitudes as float32: only gross properties (lengths, finiteness, never less)
     if not any(str(k_).startswith('nearly-') for k_ in case.get('kinds', [])) and \
             not any(abs(b_ - a_) > 3.0 for a_, b_ in zip(case['lons'][:-1], case['lons'][1:])) and \
             all(abs(x) <= PI / 2 for x in f32(case['lats'])):      # float32(pi/2) > pi/2 is not a latitude
@@ -826,7 +825,9 @@ def robustness_probes(case, st, iv, out):
             probs.append('float32 coordinates: output arrays of different lengths')
         tot, ref = sum(o32['ints'][-1]), sum(out['ints'][-1])
         nseg = len(case['lats']) - 1
-        if ref == ref and not (tot == tot and nseg * (1 - 1e-6) <= tot and abs(tot - ref) <= 1e-3 * ref):
+        # no upper bound: with float32 coordinates (ulp ~1e-7 rad) a short or nearly axis-parallel leg is the
+        # FC04d situation at float32 scale
+        if ref == ref and not (tot == tot and nseg * (1 - 1e-6) <= tot):
             probs.append(f'float32 coordinates: {nseg} unit segments are gridded to a total of {tot!r} '
                          f'(binary64 coordinates: {ref!r})')
     return probs
@@ -949,8 +950,8 @@ def describe(chk: Check):
                         'exact poles ARE generated (kind point-on-pole in input_distribution); what is excluded is only '
                         'float32 coordinates whose rounding exceeds +-pi/2, and more than one antimeridian crossing '
                         '(documented: empty / None result)',
-                        'float32 coordinates are checked only grossly (lengths, finiteness, never less, total within 0.1 % '
-                        'of the binary64 run); float32 variables to 2e-6 relative',
+                        'float32 coordinates are checked only grossly (equal lengths, finiteness, never less); float32 variables to '
+                        '2e-6 relative',
                         'C04 does not fix the latitude at which a crossing segment meets the antimeridian: the allowed '
                         'excess is accepted for the straight line and for the as-coded bent line (C05 decides that)']
 
